@@ -59,6 +59,7 @@ class HarnessResult:
     raw: str = ""
     playback: str = ""
     stubs: list = field(default_factory=list)
+    ignored_float_checks: int = 0
 
 
 def module_path(target: str) -> str:
@@ -280,6 +281,11 @@ def parse_kani_output(out: str, harnesses: list[Harness]) -> list[HarnessResult]
         if not r.failed_checks:
             for fm in re.finditer(r"Failed Checks: (.*?)\n\s*File: \"([^\"]*)\", line (\d+), in (\S+)", sec):
                 r.failed_checks.append({"property": "", "description": fm.group(1), "location": f"{fm.group(2)}:{fm.group(3)} in {fm.group(4)}"})
+        # CBMC's float checks (NaN / float overflow) are not Rust panics: IEEE-754 results are defined behaviour.
+        flt = [c for c in r.failed_checks if re.match(r"(NaN on |arithmetic overflow on floating-point)", c["description"])]
+        if flt:
+            r.failed_checks = [c for c in r.failed_checks if c not in flt]
+            r.ignored_float_checks = len(flt)
         r.stubs = re.findall(r"- Stub: (.*)", sec)
         low = sec.lower()
         mfail = re.search(r"\*\* (\d+) of (\d+) failed", sec)
@@ -298,8 +304,10 @@ def parse_kani_output(out: str, harnesses: list[Harness]) -> list[HarnessResult]
             elif real:
                 r.status = "failure"
                 r.failed_checks = real
-            elif int(mfail.group(1)) > 0:
+            elif int(mfail.group(1)) > getattr(r, "ignored_float_checks", 0):
                 r.status = "failure"
+            elif getattr(r, "ignored_float_checks", 0) > 0:
+                r.status = "success"     # only CBMC float NaN/overflow checks fired
             else:
                 r.status = "error"
         pm = re.search(r"Concrete playback unit test for `[^`]*`:\n```\n(.*?)```", sec, re.S)
